@@ -482,9 +482,11 @@ async fn add_adf_problem(
             ),
         };
 
+        // only the problem the result was computed for may receive it: the problem could have been
+        // deleted and another one added under the same name in the meantime
         let result = adf_coll
             .update_one(
-                doc! { "name": problem_name, "username": username },
+                doc! { "name": problem_name, "username": username, "code": &adf_problem.code },
                 doc! { "$set": { "adf": &adf, "acs_per_strategy.parse_only": &ac_and_graph } },
                 None,
             )
@@ -636,7 +638,9 @@ async fn solve_adf_problem(
             Ok(Ok(acs_and_graphs)) => AcsAndGraphsOpt::Some(acs_and_graphs),
         };
 
-        let result = adf_coll.update_one(doc! { "name": problem_name, "username": username }, match adf_problem_input.strategy {
+        // only the problem the result was computed for may receive it: the problem could have been
+        // deleted and another one added under the same name in the meantime
+        let result = adf_coll.update_one(doc! { "name": problem_name, "username": username, "code": &adf_problem.code }, match adf_problem_input.strategy {
             Strategy::Complete => doc! { "$set": { "acs_per_strategy.complete": &acs_and_graphs_enum } },
             Strategy::Ground => doc! { "$set": { "acs_per_strategy.ground": &acs_and_graphs_enum } },
             Strategy::Stable => doc! { "$set": { "acs_per_strategy.stable": &acs_and_graphs_enum } },
